@@ -1139,8 +1139,16 @@ func rootedInFresh(e ast.Expr, fresh map[*ast.Object]bool) bool {
 			continue
 		case *ast.Ident:
 			return t.Obj != nil && fresh[t.Obj]
-		case *ast.CallExpr, *ast.CompositeLit:
+		case *ast.CompositeLit:
 			return true
+		case *ast.CallExpr:
+			// only allocating calls are fresh roots; a conversion `Map(x)` or any other call may alias its argument
+			switch exprText(t.Fun) {
+			case "make", "new", "maps.Clone", "append", "WithBackwardNavigation", "NewHashedTable", "CopyQuery",
+				"bytes.NewBufferString", "strings.Split", "strings.SplitN", "ProcessAlias":
+				return true
+			}
+			return false
 		}
 		return false
 	}
